@@ -20,7 +20,7 @@ def run_seed(d):
         os.makedirs(ev, exist_ok=True)
         env = dict(os.environ, OXY_REPO=wt, OXY_EVIDENCE_DIR=ev)
         def one(pid):
-            q = subprocess.run(["/verif/bin/oxycheck", "check", "-p", pid, "-tier", "quick"], capture_output=True, text=True, env=env, cwd="/verif")
+            q = subprocess.run([os.environ.get("OXY_BIN", "/verif/bin/oxycheck"), "check", "-p", pid, "-tier", "quick"], capture_output=True, text=True, env=env, cwd="/verif")
             fails = sorted(set(re.findall(r"^FAIL\s+(\S+)", q.stdout, re.M)))
             return pid, q.returncode, fails
         with ThreadPoolExecutor(max_workers=4) as ex:
